@@ -20,7 +20,7 @@ BOUNDS = {
 }
 OUTSIDE = "histories longer than 3 (the property mentions 12), augmented-cycle metrics, more than 2 conditions per selection, wrap-free phase"
 ASSUMPTIONS = ['phases already wrapped into [0,2pi) with at least one wrap', 'phase_step = 1.5 pi (default)']
-REQUIRED_CLASSES = ['subset-picked', 'two-chains', 'export', 'metric-computed']
+REQUIRED_CLASSES = ['subset-picked', 'two-chains', 'export', 'metric-computed', 'integer-sample-data']
 EXPECTED_LABELS = ['no-unexpected-exception', 'metrics-match-per-cycle-recomputation', 'subset-is-exactly-the-matching-cycles',
                    'chains-are-maximal-runs', 'cache-on-equals-cache-off', 'chain-metrics-and-export-agree']
 BUDGET_S = {'quick': 170, 'thorough': 900}
@@ -29,16 +29,19 @@ OPTS = {'quick': {'sample_every': 211, 'concolic': False}, 'thorough': {'sample_
 TWO_PI = 2 * math.pi
 STEP = 1.5 * math.pi
 
-FUNCS = [('max', np.max), ('sum', np.sum), ('len', len), ('first', CY.cf_start_value)]
+FUNCS = [('max', np.max), ('sum', np.sum), ('len', len), ('first', CY.cf_start_value), ('mean', np.mean)]
 CONDS = ['is_good==1', 'is_good!=1', 'v>-0.5', 'v<=1e-1', 'v>=.5', 'v<2', 'v==0', 'v!=-1.5']
 
 
 def configs(tier):
     if tier == 'quick':
         return [('history-N3-d2', {'N': 3, 'depth': 2}), ('history-N4-d1', {'N': 4, 'depth': 1}),
-                ('history-N3-d3-metric+pick', {'N': 3, 'depth': 3, 'ops': [0, 1, 3], '_budget_s': 60})]
+                ('history-N3-d3-metric+pick', {'N': 3, 'depth': 3, 'ops': [0, 1, 3], '_budget_s': 60}),
+                # integer-dtype sample data (state labels, counts): a metric is the function's value, not cast to the data's dtype
+                ('history-N4-d2-int-data', {'N': 4, 'depth': 2, 'ops': [0, 3], 'int_data': True, '_budget_s': 40})]
     return [('history-N3-d3', {'N': 3, 'depth': 3}), ('history-N5-d1', {'N': 5, 'depth': 1}), ('history-N4-d2', {'N': 4, 'depth': 2}), ('history-N5-d2', {'N': 5, 'depth': 2}), ('history-N4-d3', {'N': 4, 'depth': 3}),
-            ('history-N6-d1', {'N': 6, 'depth': 1})]
+            ('history-N6-d1', {'N': 6, 'depth': 1}), ('history-N4-d2-int-data', {'N': 4, 'depth': 2, 'ops': [0, 3], 'int_data': True}),
+            ('history-N5-d2-int-data', {'N': 5, 'depth': 2, 'ops': [0, 3], 'int_data': True})]
 
 
 def ref_fn(name, vals):
@@ -52,6 +55,8 @@ def ref_fn(name, vals):
         return sum(vals[1:], vals[0])
     if name == 'len':
         return len(vals)
+    if name == 'mean':
+        return sum(vals[1:], vals[0]) / len(vals)
     return vals[0]
 
 
@@ -82,7 +87,11 @@ def eq_list(h, got, want):
 def harness(h):
     N, depth = h.params['N'], h.params['depth']
     p = h.reals('p', N, lo=0, hi=TWO_PI, hi_open=True)
-    x = h.reals('x', N, lo=-4, hi=4)
+    if h.params.get('int_data'):
+        x = h.int_array('x', N, -4, 4)
+        h.note('integer-sample-data')
+    else:
+        x = h.reals('x', N, lo=-4, hi=4)
     w = [bool(abs(p[i + 1] - p[i]) > STEP) for i in range(N - 1)]
     if not any(w):
         return
@@ -113,7 +122,7 @@ def harness(h):
         par = h.int('par%d' % step, 0, 7)
         par2 = h.int('parb%d' % step, 0, 2)
         if op == 0:
-            h.assume(par <= 3)
+            h.assume(par <= (4 if h.params.get('int_data') else 3))
             h.assume(par2 == 0)
         elif op == 3:
             pass
